@@ -18,6 +18,18 @@ def step (st : State) (line : String) : State × String :=
   | "DEF" :: args => handleDef st args
   | "ENC" :: args => (st, handleEnc st args impl)
   | "DEC" :: args => (st, handleDec st args impl)
+  | "ENC2" :: args => (st, handleEncV "2" st args impl)
+  | "ENC7" :: args => (st, handleEncV "7" st args impl)
+  | "ENC9" :: args => (st, handleEncV "9" st args impl)
+  | "ENC18" :: args => (st, handleEncV "18" st args impl)
+  | "IMPLONLY" :: _ =>
+    -- cases too large for the list-based model: only the implementation's outcome is judged (C18)
+    (st, match impl with
+      | "PANIC" :: _ => "SKIP || FAILS panic"
+      | "CRASH" :: _ => "SKIP || FAILS crash"
+      | _ => "SKIP || HOLDS")
+  | "REF9" :: args => (st, handleEncV "9" st args impl)
+  | "RT" :: args => (st, handleRoundTrip st args impl)
   | "BPE" :: args => (st, handlePiece st args impl)
   | "UNI" :: args => (st, handlePiece st args impl)
   | "WP" :: args => (st, handlePiece st args impl)
